@@ -106,7 +106,11 @@ def md_tagged(md):
 
 
 def typed_parses(md):
-    return isinstance(md, dict) and isinstance(md.get("version"), str)
+    """the harness' typed metadata: a string `version`, optionally a map of strings `labels`, anything else ignored"""
+    if not (isinstance(md, dict) and isinstance(md.get("version"), str)):
+        return False
+    lb = md.get("labels", {})
+    return isinstance(lb, dict) and all(isinstance(x, str) for x in lb.values())
 
 
 def predict_cached(v, step):
